@@ -79,31 +79,39 @@ func newLexer(env *ExecEnv, r io.RuneScanner) *lexer {
 		token:  make(chan interface{}),
 		cancel: make(chan struct{}),
 	}
+	verifHook(l, hkSpawn)
 	go l.run()
 	return l
 }
 
 func (l *lexer) Lex(lval *yySymType) int {
+	verifHook(l, hkLexBefore)
 	switch tok := (<-l.token).(type) {
 	case token:
+		verifHook(l, hkLexAfter)
 		lval.expr.s = tok.val
 		return tok.typ
 	case int:
+		verifHook(l, hkLexAfter)
 		lval.op = ops[tok]
 		return tok
 	}
+	verifHook(l, hkLexAfter)
 	return 0
 }
 
 func (l *lexer) run() {
 	defer func() {
+		verifHook(l, hkRunExitBegin)
 		close(l.token)
+		verifHook(l, hkRunExitEnd)
 
 		if e := recover(); e != nil && e != bailout {
 			// re-panic
 			panic(e)
 		}
 	}()
+	verifHook(l, hkRunStart)
 
 	for action := l.lexToken; action != nil; {
 		action = action()
@@ -349,9 +357,12 @@ func (l *lexer) emit(typ int) {
 	default:
 		tok = typ
 	}
+	verifHook(l, hkEmitBefore)
 	select {
 	case l.token <- tok:
+		verifHook(l, hkEmitAfter)
 	case <-l.cancel:
+		verifHook(l, hkEmitCancel)
 		// bailout
 		panic(bailout)
 	}
@@ -367,6 +378,7 @@ func (l *lexer) unread() {
 }
 
 func (l *lexer) Error(s string) {
+	verifHook(l, hkError)
 	l.mu.Lock()
 	defer l.mu.Unlock()
 
@@ -386,6 +398,7 @@ func (l *lexer) Error(s string) {
 	default:
 		close(l.cancel)
 	}
+	verifHook(l, hkCancelClosed)
 }
 
 // bailout is the panic value used to terminate the lexer goroutine.
